@@ -30,6 +30,14 @@ CHECKS = {
                      "beyond-frame inner length, invalid UTF-8, short body, bad ordinal) and every unexpected packet kind; the real handler is run on the concrete bytes "
                      "(before and after encryption) under a counting allocator; TLC judges: no panic, ends by itself, nothing runs after EOF, largest allocation <= 4*max+64KiB, no reply, error.",
                 note=CONN_NOTE + " Memory is measured (largest single request), not proved."),
+    "C05": dict(engine="cipher", design="5 C05", technique="TLC model checking of Cipher.tla (poll-level: Pending / partial accept / read sizes / switch point) + replay of every schedule against the real CipherStream with an independent CFB8 + TLC trace validation",
+                text="TLC enumerates every poll schedule for small writes (inner transport returns Pending, accepts any prefix; reads of every size down to one byte into "
+                     "pre-filled buffers; arrival portions; switch from plaintext at every point) and checks that the accepted bytes are the one continuous stream over the plaintext "
+                     "reported as written and that reads surface the matching decryption. Each schedule is replayed against the real CipherStream over a scripted transport (each abstract "
+                     "byte = 1, 7, 16 or 17 concrete bytes, crossing the AES block size) plus seeded random 1-4 KiB schedules; after every poll the accepted / surfaced bytes are compared "
+                     "with an independent AES-128-CFB8 built on the raw block function; TLC judges every recorded poll. A second config shows the model rejects the as-found structure.",
+                note="Trusted: TLC; the independent CFB8 of harness/hx-core/src/refcodec.rs (validated: agrees with the crate on whole writes); the scripted transport. CFB8 feedback state is "
+                     "abstracted to a keystream position in the model; the concrete comparison is done on real bytes."),
     "C06": dict(engine="conn", design="5 C06", technique="TLC model checking of Conn.tla (all serverbound kind sequences to termination) + replay + TLC trace validation",
                 text="TLC enumerates all sequences of serverbound packet kinds of all phases (17 kinds, by wire id per phase) up to the depth at which the connection has ended; "
                      "each is replayed; TLC judges the clientbound order language, Login Success only after an honest response, routing only after Login Acknowledged and Client "
@@ -66,6 +74,16 @@ CHECKS = {
                 text="TLC enumerates two-connection histories (authenticate and get transferred; reconnect with exactly the stored bytes after a change of IP / age / secret); the "
                      "harness checks the issued cookie with an independent HMAC and generic JSON parsing; TLC judges issue conditions, contents, and acceptance on the next transfer.",
                 note=CONN_NOTE + " 'beyond expiry' is realised with expiry 1 s and a real 2.2 s pause."),
+    "C20": dict(engine="agones", design="5 C20",
+                technique="TLC model checking of Agones.tla (API server, LIST/WATCH protocol, kube watcher, event handler, cache) + TLC-exported histories replayed through a loopback mock Kubernetes API into the real AgonesDiscoveryAdapter + TLC trace validation against AgonesProps.tla",
+                text="TLC checks exhaustively that the event-driven design satisfies Quiescent => cache = ReadySet and cache = ReadySet(observed) at all times (2 GameServers, 4-6 shape classes, "
+                     "3-4 writes, drops / 410 re-lists / bookmarks). TLC random walks over the same design export API-level histories (create/modify/delete over 12 object shapes incl. Creating, "
+                     "Reserved, Shutdown, Unhealthy, bad address, no ports as null/absent/[]; LIST answered; connection reset/EOF; 410 Gone; BOOKMARK). A seeded feature-covering selection "
+                     "(36 quick / 400 thorough) is replayed: after every step discover() is polled until it settles and recorded; TLC judges each step with the clauses OffersExactlyReady, "
+                     "CurrentAddressPort (first port), CurrentMetadata, DeletedNotOffered, UnconvertibleNotOffered, KeptWhileRelisting.",
+                note="Trusted: TLC; the hand-rolled mock API server of harness/hx-agones (chunked watch, 410 as ERROR Status event, bookmarks, resourceVersions) and the label<->value tables fixed "
+                     "before the run. Histories are sampled (simulation + selection), not exhaustive; convergence is awaited up to 12 s per step (kube back-off 0.8 s doubling), 30 s hard cap; "
+                     "transient states between steps are only judged while a re-LIST is outstanding; metadata is judged as the exact string map lib.rs documents."),
 }
 
 NOT_YET = {
@@ -79,6 +97,10 @@ NOT_YET = {
 }
 
 ENGINES = [
+    {"name": "cipher", "path": "lib/cipher_check.py", "serves_properties": ["C05"],
+     "kind_free_text": "spec/Cipher.tla checked by TLC; poll schedules replayed by hx-core cipher against the real CipherStream; observations judged by TLC (Trace_Cipher.tla)"},
+    {"name": "agones", "path": "lib/agones_check.py", "serves_properties": ["C20"],
+     "kind_free_text": "spec/Agones.tla + AgonesProps.tla checked by TLC; histories exported (-simulate) and replayed by harness/hx-agones through a loopback mock Kubernetes API into the real AgonesDiscoveryAdapter; recorded offered sets judged by TLC (Trace_Agones.tla)"},
     {"name": "wire", "path": "lib/wire_check.py", "serves_properties": ["C09"],
      "kind_free_text": "spec/Wire.tla checked by TLC (MC_Wire); vectors replayed by hx-core wire; observations judged by TLC (Trace_Wire.tla)"},
     {"name": "ratelimiter", "path": "lib/rl_check.py", "serves_properties": ["C13"],
